@@ -25,7 +25,12 @@ def textEq (cfg : Cfg) (a b : Green) : Option Bool :=
     | none, some _ => some false
     | none, none =>
       if cfg.debug && ((cfg.staticText ka).isNone || (cfg.staticText kb).isNone) then none
-      else some (ka == kb)
+      else some (ka == kb || cfg.staticText ka == cfg.staticText kb)
+  | _, _ => none
+
+/-- append two partial texts (`none` = a token failed to resolve, i.e. the `unwrap` panicked) -/
+def appendOpt : Option Text → Option Text → Option Text
+  | some a, some b => some (a ++ b)
   | _, _ => none
 
 namespace Red
@@ -36,10 +41,7 @@ def display (cfg : Cfg) (I : Interner) (r : Red) (p : Path) : Option Text × Red
   else
     let (ps, r') := r.descendantsWithTokens p
     let toks := ps.filter r'.isToken
-    (toks.foldl (fun acc q =>
-        match acc, (r'.green q).bind (tokenText cfg I) with
-        | some a, some t => some (a ++ t)
-        | _, _ => none) (some []), r')
+    (toks.foldl (fun acc q => appendOpt acc ((r'.green q).bind (tokenText cfg I))) (some []), r')
 
 /-- one debug line: kind, range, and for tokens the shown (possibly abbreviated) text;
     `none` = panic -/
